@@ -24,6 +24,7 @@ impl StunAttribute {
     pub uninterp spec fn post_ok(&self, enc: Seq<u8>, val: Seq<u8>) -> bool;
     pub uninterp spec fn verifiable(&self) -> bool;
 }
+//@include inc/post_n.rs
 //@include inc/img_vocab.rs
 //@include inc/dec_vocab.rs
 
@@ -31,13 +32,9 @@ impl StunAttribute {
 // within the documented limits of its kind, and of a kind whose value is not rewritten after encoding (everything
 // but MESSAGE-INTEGRITY, MESSAGE-INTEGRITY-SHA256, FINGERPRINT and Unknown); defined and proved in unit attrs
 pub uninterp spec fn rt_ok(a: StunAttribute) -> bool;
-#[verifier::external_body]
-pub proof fn axiom_attr_roundtrip(a: StunAttribute, p: Seq<u8>, l1: int, l2: int)
-    requires rt_ok(a), p.len() >= 20, header_ok(p), a.encodable(p),
-    ensures registered(a.spec_type()),
-        post_n(a, set_len(p, l1), a.wire(p)) == a.wire(p),
-        dec_attr(a.spec_type(), a.wire(p), set_len(p, l2)) == Some(a),
-{}
+// the statement proved in unit attrs over the real 39-variant enum, with rt_ok / registered / dec_attr / wire / post_wire
+// defined there per kind (declared here with the same text, without proof)
+//@importlemma attrs :: lemma_attr_roundtrip as axiom_attr_roundtrip
 
 // ---------------------------------------------------------------- framing: the image is a sequence of TLVs that walk() finds
 pub open spec fn st(msg: StunMessage, k: int) -> int { img(msg, k).len() - 20 }
